@@ -3,7 +3,7 @@
     the proofs are in Reentrancy/ReentrancyProofs.v. *)
 From ClapModel Require Import Base.Bytes Base.Machine.
 From ClapModel Require Import Parse.Cmd Parse.Build Parse.Errors Parse.Parser.
-From ClapModel Require Import Reentrancy.ReentrancyModel Reentrancy.ReentrancyProofs.
+From ClapModel Require Import Reentrancy.ReentrancyModel Reentrancy.ReentrancyProofs Reentrancy.ReentrancyParse.
 From Coq Require Import List.
 From RecordUpdate Require Import RecordSet.
 Import RecordSetNotations ListNotations.
@@ -94,3 +94,36 @@ Theorem C11_built_beforehand_kind_refuted :
   exists c argv, parse_kind (build_op c) argv <> parse_kind c argv.
 Proof. exact built_beforehand_kind_refuted. Qed.
 Print Assumptions C11_built_beforehand_kind_refuted.
+
+(** parser level (these four rest on functional_extensionality_dep, see Reentrancy/ReentrancyParse.v):
+    the token loop of a level reads the level's subcommands only through their signatures *)
+Theorem C11_parser_reads_signatures : forall c l',
+  map sig (c_subs c) = map sig l' -> parse_loop (c <| c_subs := l' |>) = parse_loop c.
+Proof. exact sh_parse_loop. Qed.
+Print Assumptions C11_parser_reads_signatures.
+
+(** two commands with the same normal form to every depth: same parser result, same visited names *)
+Theorem C11_parse_normal_form : forall fuel c1 c2 toks st,
+  (forall n, norm_children n c1 = norm_children n c2) ->
+  get_matches_with fuel c1 toks st = get_matches_with fuel c2 toks st.
+Proof. exact gmw_agree. Qed.
+Print Assumptions C11_parse_normal_form.
+
+Theorem C11_parse_names_normal_form : forall fuel c1 c2 toks st,
+  (forall n, norm_children n c1 = norm_children n c2) ->
+  map visit_names (parse_trace fuel c1 toks st) = map visit_names (parse_trace fuel c2 toks st).
+Proof. exact trace_agree. Qed.
+Print Assumptions C11_parse_names_normal_form.
+
+(** history independence: after any finite history of parses (succeeding or failing, under program
+    name [b]), renders, clones and did_you_mean mutations, the parser result (matcher or error with the
+    parser state), the bin / display names of every command level visited, and the reported error
+    are those of the fresh definition *)
+Theorem C11_history_independence : forall h b c argv,
+  good_name b = true -> hist_ok b c h = true ->
+  argv_under b (run c h) argv = true -> argv_under b c argv = true ->
+  parse_result (run c h) argv = parse_result c argv
+  /\ parse_names (run c h) argv = parse_names c argv
+  /\ err_of (fst (fst (parse_mut (run c h) argv))) = err_of (fst (fst (parse_mut c argv))).
+Proof. exact history_independence. Qed.
+Print Assumptions C11_history_independence.
